@@ -8,6 +8,8 @@ returned), computed by the harness from the real implementation, and `<value>` i
 notation: `N` | `T` | `F` | `I<decimal>` | `D<16 hex digits>` (binary64 pattern) | `S<hex of utf-8>` |
 `Y<hex>` | `L<n> v…` list | `U<n> v…` tuple | `E<n> v…` set | `Z<n> v…` frozenset | `M<n> k v …` dict
 (children in iteration order).
+`encod <pinned|regressed|repaired> <n> <table…> M<n> k v …` is the same for a top-level `collections.OrderedDict` with the
+given items (`encodeOD`, the three versions of `Hasher._batch_setitems` on a one-shot iterator).
 Reply: `ok <hex of encodeV H ver value>`, `missing-digest` when the model asked `H` for a stream
 that is not in the table (its stream for a key differs from the implementation's), or `bad-op`. -/
 open JoblibModel JoblibModel.HashStream JoblibModel.IOUtil
@@ -97,6 +99,19 @@ def handle (line : String) : String :=
         match parseVal (2 * r'.length + 2) r' with
         | some (v, []) =>
           let out := encodeV (lookupH tab) ver v
+          if out.any (· ≥ 256) then "missing-digest" else "ok " ++ hexOf out
+        | _ => "bad-op"
+      | none => "bad-op"
+    | _, _ => "bad-op"
+  | "encod" :: ver :: n :: r =>
+    match (if ver = "pinned" then some ItemsVer.pinned else if ver = "regressed" then some ItemsVer.regressed
+           else if ver = "repaired" then some ItemsVer.repaired else none), n.toNat? with
+    | some iv, some n =>
+      match parseTable n r with
+      | some (tab, r') =>
+        match parseVal (2 * r'.length + 2) r' with
+        | some (.dict items, []) =>
+          let out := encodeOD (lookupH tab) iv items
           if out.any (· ≥ 256) then "missing-digest" else "ok " ++ hexOf out
         | _ => "bad-op"
       | none => "bad-op"
